@@ -18,7 +18,7 @@ from vk import probe
 from vk import tree as vtree
 
 LEVEL = 'exploration'
-RULE = ('histories over a pool of 13 trees (elisions, nested scopes, comments, two source paths, one scope of 420 names) and 13 printer objects '
+RULE = ('histories over a pool of 13 trees (elisions, nested scopes, comments, two source paths, one scope of 420 names) and 15 printer objects '
         '(pretty x 3 indents, minify x drop_semi, obfuscating x {globals, shadow}, obfuscate+indent composition, '
         'extractor x fold_ops): every history of length <= 2 (thorough: 3) over a reduced alphabet, and random '
         'histories of 50-200 operations favouring abandon / raise immediately before a full call on the same printer; '
@@ -53,7 +53,10 @@ class FaultInjected(Exception):
 
 def printers():
     """name -> factory of a printer object (callable node -> iterable)"""
-    from calmjs.parse.unparsers.es5 import pretty_printer, minify_printer, Unparser
+    import functools
+    from calmjs.parse.unparsers.es5 import pretty_printer, minify_printer, Unparser, definitions
+    from calmjs.parse.unparsers.base import BaseUnparser
+    from calmjs.parse.unparsers.walker import Dispatcher
     from calmjs.parse.unparsers.extractor import extractor
     from calmjs.parse import rules
     from calmjs.parse.lexers.es5 import Lexer
@@ -77,6 +80,13 @@ def printers():
             rules=(rules.minify(drop_semi=False),
                    rules.obfuscate(obfuscate_globals=True, reserved_keywords=Lexer.keywords_dict.keys())),
             prewalk_hooks=[_pure_hook])),
+        # the Dispatcher class is a constructor argument too: its newline and indentation strings configure the
+        # layout handlers (one line, CRLF, TAB)
+        ('dispatcher_one_line', lambda: BaseUnparser(
+            definitions, rules=(rules.indent(),), dispatcher_cls=functools.partial(Dispatcher, newline_str=''))),
+        ('dispatcher_crlf_tab', lambda: BaseUnparser(
+            definitions, rules=(rules.indent(),), dispatcher_cls=functools.partial(Dispatcher, newline_str='\r\n',
+                                                                                 indent_str='\t'))),
         ('pretty_with_handler_dicts', lambda: Unparser(
             rules=(rules.indent('  '),), layout_handlers={}, deferrable_handlers={}, prewalk_hooks=[_pure_hook, _pure_hook])),
     ]
